@@ -4,7 +4,8 @@
 Each `case OP_X:` body (with the helper members it calls inlined) becomes a term of
 
     Act ::= nop | pop c k | push c k | read n | may | throw | jump | ret | stop | settop
-          | seq a b | branch a b | try body handler | call body
+          | seq a b | branch a b | try body handler | call body | setf i b | iff i a b
+          | savepos i | restorepos i | loop body
 
 `pop c k` pops `c + k*N` slots where N is the instruction's run-time operand count; `read n` advances
 m_CodePos by n bytes; `may` is a call that may or may not throw; `try body handler` is
@@ -178,9 +179,13 @@ class Parser:
             head = toks[i + 2:k - 1]
             body, k2 = self.stmt(toks, k, env)
             h = self.expr(head, env)
-            if not self.stack_free(body) or not self.stack_free(h):
-                raise Unsupported("loop that moves the stack or the code pointer")
-            return seq([h, ("branch", ("nop",), body)]), k2
+            if not self.stack_free(h):
+                raise Unsupported("loop head that moves the stack or the code pointer")
+            if self.stack_free(body):
+                return seq([h, ("branch", ("nop",), body)]), k2
+            # the body moves stack / code pointer: the Lean side explores 0, 1 and 2 iterations and
+            # requires the second to add no outcome the first did not have (then neither does any later one)
+            return seq([h, ("loop", body)]), k2
         if t in ("while", "do", "switch", "goto"):
             raise Unsupported("statement " + t)
         # declaration or expression statement: up to the ';' at depth 0
@@ -208,7 +213,7 @@ class Parser:
 
     def stack_free(self, act):
         k = act[0]
-        if k in ("pop", "push", "read", "jump", "settop", "stop", "ret", "setf"):
+        if k in ("pop", "push", "read", "jump", "settop", "stop", "ret", "setf", "savepos", "restorepos", "loop"):
             return False
         return all(self.stack_free(x) for x in act[1:] if isinstance(x, tuple))
 
@@ -268,8 +273,15 @@ class Parser:
         # m_CodePos += sizeof(..) + sizeof(..)
         if len(toks) >= 3 and toks[0] == "m_CodePos" and toks[1] == "+=":
             return ("read", self.sizeof_sum(toks[2:]))
+        saved = env.setdefault("saved", {})
+        if len(toks) == 3 and toks[0] == "m_CodePos" and toks[1] == "=" and toks[2] in saved:
+            return ("restorepos", saved[toks[2]])
         if len(toks) >= 3 and toks[0] == "m_CodePos" and toks[1] in ("=", "-="):
             return ("jump",)
+        # const opval_t* const fieldPos = m_CodePos;
+        if len(toks) >= 3 and toks[-1] == "m_CodePos" and toks[-2] == "=" and re.match(r"[A-Za-z_]\w*$", toks[-3]) and "opval_t" in toks:
+            saved[toks[-3]] = len(saved)
+            return ("savepos", saved[toks[-3]])
         self.calls(toks, 0, len(toks), env, acts)
         # overloaded operators of ScriptVariable are calls too (operator+=, ==, ++ ...)
         if toks and toks[0] != "m_CodePos" and self.has_operator(toks):
@@ -464,6 +476,12 @@ def lean_act(a):
         return "(.branch %s %s)" % (lean_act(a[1]), lean_act(a[2]))
     if k == "try":
         return "(.try %s %s)" % (lean_act(a[1]), lean_act(a[2]))
+    if k == "savepos":
+        return "(.savepos %d)" % a[1]
+    if k == "restorepos":
+        return "(.restorepos %d)" % a[1]
+    if k == "loop":
+        return "(.loop %s)" % lean_act(a[1])
     if k == "setf":
         return "(.setf %d %s)" % (a[1], "true" if a[2] else "false")
     if k == "iff":
